@@ -174,3 +174,323 @@ Proof.
   unfold wf_node. rewrite E1, E2, E3, E4. cbn [new_surface s_w s_h s_kids s_buf app].
   repeat split; try lia. rewrite zlen_repeat by nia. lia.
 Qed.
+
+Lemma empty_surface_wf : wf_tree empty_surface.
+Proof. apply wf_tree_intro; [unfold wf_node; cbn; lia | constructor]. Qed.
+
+Lemma center_draw_ok (child : Z -> Z -> cres) maxw maxh chS :
+  0 <= maxw < 65535 -> 0 <= maxh < 65535 -> child maxw maxh = COk chS -> wf_tree chS ->
+  exists s, center_draw child maxw maxh = DOk s /\ wf_tree s /\ s_w s = maxw /\ s_h s = maxh /\
+            s_kids s = [(u16 (maxw - s_w chS) / 2, u16 (maxh - s_h chS) / 2, 0, chS)].
+Proof.
+  intros Hw Hh Ec Hc. pose proof (center_draw_spec child maxw maxh Hw Hh) as H. rewrite Ec in H.
+  destruct H as (s & E & E1 & E2 & Hn & Ek). exists s; repeat split; try assumption.
+  apply wf_tree_intro; [exact Hn|]. rewrite Ek. constructor; [exact Hc | constructor].
+Qed.
+
+(* ------------------------------------------------------------------ button *)
+
+Lemma button_draw_spec lines maxw maxh : 0 <= maxw < 65535 -> 0 <= maxh < 65535 ->
+  exists s chS, button_draw lines maxw maxh = DOk s /\ wf_tree s /\ s_w s = maxw /\ s_h s = maxh /\
+    s_kids s = [(u16 (maxw - s_w chS) / 2, u16 (maxh - s_h chS) / 2, 0, chS)] /\
+    wf_tree chS /\ 0 <= s_w chS <= maxw /\ 0 <= s_h chS <= maxh.
+Proof.
+  intros Hw Hh. unfold button_draw.
+  replace ((maxh =? 65535) || (maxw =? 65535)) with false by lia.
+  destruct (text_draw_spec true lines maxw maxh ltac:(lia) ltac:(lia)) as (chS & Et & Hc & Hcw & Hch & _).
+  destruct (center_draw_ok (fun mw mh => cres_of (text_draw true lines mw mh)) maxw maxh chS Hw Hh) as (s & E & Hs & E1 & E2 & Ek).
+  { cbv beta. rewrite Et. reflexivity. } { exact Hc. }
+  rewrite E. exists (fill (fun c : wcell => c) s), chS.
+  destruct (fill_shape (fun c : wcell => c) s) as (F1 & F2 & F3).
+  rewrite F1, F2, F3. pose proof (zlen_nonneg lines).
+  repeat split; try assumption; try lia. apply fill_wf_tree, Hs.
+Qed.
+
+(* ------------------------------------------------------------------ textfield *)
+
+Lemma field_loop_keeps chars : forall (s : wsurface) col, wf_tree s -> 0 <= col ->
+  exists s', field_loop s chars col = Some s' /\ keeps s s'.
+Proof.
+  induction chars as [|[g cw] t IH]; intros s col Hwf Hc; cbn [field_loop].
+  - exists s; split; [reflexivity | apply keeps_refl, Hwf].
+  - destruct (write_cell_keeps s col 0 (g, cw) Hwf Hc ltac:(lia)) as (s1 & E1 & K1). rewrite E1.
+    destruct (IH s1 (u16 (col + u16 cw)) (proj1 K1) (proj1 (u16_range _))) as (s2 & E2 & K2).
+    exists s2; split; [exact E2 | eapply keeps_trans; eassumption].
+Qed.
+
+Lemma field_draw_spec chars maxw maxh : 0 <= maxw < 65536 -> 0 <= maxh < 65536 ->
+  exists s, field_draw chars maxw maxh = DOk s /\ wf_tree s /\
+            0 <= s_w s <= maxw /\ 0 <= s_h s <= maxh /\
+            (maxw <> 0 -> maxh <> 0 -> s_w s = maxw /\ s_h s = 1).
+Proof.
+  intros Hw Hh. unfold field_draw. destruct ((maxw =? 0) || (maxh =? 0)) eqn:E.
+  - exists empty_surface; split; [reflexivity|]. split; [apply empty_surface_wf|]. cbn; repeat split; lia.
+  - destruct (field_loop_keeps chars (new_surface wblank maxw 1) 0) as (s & Es & K & K1 & K2 & K3).
+    { apply new_surface_wf_tree; lia. } { lia. }
+    rewrite Es. exists s; split; [reflexivity|]. split; [exact K|]. rewrite K1, K2. cbn. repeat split; lia.
+Qed.
+
+(* ------------------------------------------------------------------ list.Dynamic (initial state) *)
+
+Definition dres_wf (r : dres) : Prop := match r with DOk c => wf_tree c | DPanic => True end.
+
+Lemma list_loop_spec rs : forall (s : wsurface) off ah gap maxh,
+  wf_tree s -> Forall dres_wf rs ->
+  match list_loop s rs off ah gap maxh with
+  | Some s' => wf_tree s' /\ s_w s' = s_w s /\ s_h s' = s_h s
+  | None => In DPanic rs
+  end.
+Proof.
+  induction rs as [|r t IH]; intros s off ah gap maxh Hs Hrs; cbn [list_loop].
+  - auto.
+  - inversion Hrs as [|? ? Hr Ht]; subst. destruct r as [|chS]; [left; reflexivity|].
+    cbn [dres_wf] in Hr.
+    pose proof (add_child_wf_tree s off ah chS Hs Hr) as Hs'.
+    destruct (add_child_shape s off ah chS) as (A1 & A2 & _ & _).
+    destruct (ah + s_h chS + gap >=? maxh); [repeat split; assumption|].
+    specialize (IH (add_child s off ah chS) off (ah + s_h chS + gap) gap maxh Hs' Ht).
+    destruct (list_loop (add_child s off ah chS) t off (ah + s_h chS + gap) gap maxh).
+    + destruct IH as (I1 & I2 & I3); repeat split; [exact I1 | congruence | congruence].
+    + right; exact IH.
+Qed.
+
+Lemma gutter_keeps n : forall (s : wsurface) row, wf_tree s -> 0 <= row ->
+  exists s', gutter s n row = Some s' /\ keeps s s'.
+Proof.
+  induction n as [|n IH]; intros s row Hs Hr; cbn [gutter].
+  - exists s; split; [reflexivity | apply keeps_refl, Hs].
+  - destruct (write_cell_keeps s 0 row (g_space, 1) Hs ltac:(lia) Hr) as (s1 & E1 & K1). rewrite E1.
+    destruct (write_cell_keeps s1 1 row (g_space, 1) (proj1 K1) ltac:(lia) Hr) as (s2 & E2 & K2). rewrite E2.
+    destruct (IH s2 (row + 1) (proj1 K2) ltac:(lia)) as (s3 & E3 & K3).
+    exists s3; split; [exact E3 | eapply keeps_trans; [eapply keeps_trans|]; eassumption].
+Qed.
+
+Lemma cursor_col_keeps n : forall (s : wsurface) row, wf_tree s -> 0 <= row ->
+  exists s', cursor_col s n row = Some s' /\ keeps s s'.
+Proof.
+  induction n as [|n IH]; intros s row Hs Hr; cbn [cursor_col].
+  - exists s; split; [reflexivity | apply keeps_refl, Hs].
+  - destruct (write_cell_keeps s 0 row (g_cursor, 1) Hs ltac:(lia) Hr) as (s1 & E1 & K1). rewrite E1.
+    destruct (IH s1 (row + 1) (proj1 K1) ltac:(lia)) as (s3 & E3 & K3).
+    exists s3; split; [exact E3 | eapply keeps_trans; eassumption].
+Qed.
+
+Lemma list_finish_spec drawcur (s : wsurface) maxw : wf_tree s -> 0 <= maxw < 65536 ->
+  exists s', list_finish drawcur s maxw = Some s' /\ wf_tree s' /\ s_w s' = s_w s /\ s_h s' = s_h s.
+Proof.
+  intros Hs Hw. unfold list_finish. destruct drawcur; cbn [negb].
+  2:{ exists s; repeat split; auto. }
+  destruct (gutter_keeps (Z.to_nat (s_h s)) s 0 Hs ltac:(lia)) as (s1 & E1 & K1 & K2 & K3 & K4). rewrite E1.
+  destruct (s_kids s1) as [|[[[c0 r0] z0] ch] rest] eqn:Ek.
+  - exists s1; repeat split; assumption.
+  - pose proof (wf_tree_kids s1 K1) as Hk. rewrite Ek in Hk. inversion Hk as [|? ? Hch Hrest]; subst.
+    cbn [kid_surf] in Hch. pose proof (wf_tree_node ch Hch) as (Hcw & Hchh & _).
+    destruct (cursor_col_keeps (Z.to_nat (s_h ch)) (new_surface wblank maxw (s_h ch)) 0) as (cur & Ec & C1 & _).
+    { apply new_surface_wf_tree; lia. } { lia. }
+    rewrite Ec. eexists; split; [reflexivity|]. cbn [s_w s_h]. split; [|split; assumption].
+    apply wf_tree_unfold; split.
+    + pose proof (wf_tree_node s1 K1) as Hn. unfold wf_node in *. cbn [s_w s_h s_buf]. exact Hn.
+    + constructor; [cbn [kid_surf]; apply add_child_wf_tree; assumption | exact Hrest].
+Qed.
+
+(* ------------------------------------------------------------------ every widget tree *)
+
+Lemma wspec_ind' (P : wspec -> Prop) :
+  (forall r s l, P (WText r s l)) -> (forall c, P c -> P (WCenter c)) ->
+  (forall l, P (WButton l)) -> (forall c, P (WField c)) ->
+  (forall d g items, Forall P items -> P (WList d g items)) -> forall w, P w.
+Proof.
+  intros H1 H2 H3 H4 H5. fix IH 1. intros [r s l|c|l|c|d g items].
+  - apply H1. - apply H2, IH. - apply H3. - apply H4.
+  - apply H5. induction items as [|i t IHt]; constructor; [apply IH | apply IHt].
+Qed.
+
+Lemma contract_panic_needs_bounded ws maxw maxh :
+  contract_panic ws maxw maxh = true -> needs_bounded ws = true.
+Proof. destruct ws; cbn; auto; discriminate. Qed.
+
+(* The layout contract for every tree of built-in widgets and every constraint:
+   Draw panics only where a widget that documents "bounded constraints required" receives an
+   unbounded one; otherwise it returns a well-formed surface tree no larger than the maximum. *)
+Definition draw_contract (ws : wspec) (maxw maxh : Z) : Prop :=
+  match draw ws maxw maxh with
+  | DOk s => wf_tree s /\ 0 <= s_w s <= maxw /\ 0 <= s_h s <= maxh
+  | DPanic => contract_panic ws maxw maxh = true
+  end.
+
+Lemma draw_contract_all : forall ws maxw maxh,
+  0 <= maxw < 65536 -> 0 <= maxh < 65536 -> draw_contract ws maxw maxh.
+Proof.
+  induction ws as [r soft lines|ch IH|lines|chars|drawcur gap items IH] using wspec_ind';
+    intros maxw maxh Hw Hh; unfold draw_contract.
+  - cbn [draw]. destruct (text_draw_spec soft lines maxw maxh Hw Hh) as (s & E & Hs & Hsw & Hsh & _).
+    rewrite E. pose proof (zlen_nonneg lines). repeat split; try assumption; lia.
+  - cbn [draw contract_panic].
+    destruct ((maxh =? 65535) || (maxw =? 65535)) eqn:Eu.
+    + unfold center_draw. rewrite Eu. reflexivity.
+    + specialize (IH maxw maxh Hw Hh). unfold draw_contract in IH.
+      destruct (draw ch maxw maxh) as [|chS] eqn:Ed.
+      * pose proof (center_draw_spec (fun mw mh => cres_of (draw ch mw mh)) maxw maxh ltac:(lia) ltac:(lia)) as H.
+        cbv beta in H. rewrite Ed in H. cbn [cres_of] in H. rewrite H. cbn [orb]. exact IH.
+      * destruct (center_draw_ok (fun mw mh => cres_of (draw ch mw mh)) maxw maxh chS ltac:(lia) ltac:(lia))
+          as (s & E & Hs & E1 & E2 & _).
+        { cbv beta. rewrite Ed. reflexivity. } { apply IH. }
+        rewrite E. repeat split; try assumption; lia.
+  - cbn [draw contract_panic].
+    destruct ((maxh =? 65535) || (maxw =? 65535)) eqn:Eu.
+    + unfold button_draw. rewrite Eu. reflexivity.
+    + destruct (button_draw_spec lines maxw maxh ltac:(lia) ltac:(lia)) as (s & chS & E & Hs & E1 & E2 & _).
+      rewrite E. repeat split; try assumption; lia.
+  - cbn [draw]. destruct (field_draw_spec chars maxw maxh Hw Hh) as (s & E & Hs & H1 & H2 & _).
+    rewrite E. repeat split; try assumption; lia.
+  - cbn [draw contract_panic].
+    destruct ((maxh =? 65535) || (maxw =? 65535)) eqn:Eu; [reflexivity|]. cbn [orb].
+    set (off := if drawcur then 2 else 0).
+    set (rs := map (fun it => draw it (u16 (maxw - off)) 65535) items).
+    assert (Hrs : Forall dres_wf rs).
+    { subst rs. apply Forall_map. eapply Forall_impl; [|exact IH]. intros it Hit.
+      specialize (Hit (u16 (maxw - off)) 65535 (u16_range _) ltac:(lia)). unfold draw_contract in Hit.
+      destruct (draw it (u16 (maxw - off)) 65535); cbn [dres_wf]; tauto. }
+    pose proof (list_loop_spec rs (new_surface wblank maxw maxh) off 0 gap maxh
+                  (new_surface_wf_tree wblank maxw maxh Hw Hh) Hrs) as Hl.
+    destruct (list_loop (new_surface wblank maxw maxh) rs off 0 gap maxh) as [s|].
+    + destruct Hl as (L1 & L2 & L3).
+      destruct (list_finish_spec drawcur s maxw L1 Hw) as (s' & E & F1 & F2 & F3). rewrite E.
+      cbn [new_surface s_w s_h] in L2, L3. repeat split; try assumption; lia.
+    + subst rs. apply in_map_iff in Hl. destruct Hl as (it & Hd & Hin).
+      rewrite Forall_forall in IH. specialize (IH it Hin (u16 (maxw - off)) 65535 (u16_range _) ltac:(lia)).
+      unfold draw_contract in IH. rewrite Hd in IH.
+      apply existsb_exists. exists it; split; [exact Hin|].
+      eapply contract_panic_needs_bounded; exact IH.
+Qed.
+
+(* ------------------------------------------------------------------ centring *)
+
+(* Center for an arbitrary child widget (any function of the constraint) that honours the
+   contract: the child is the single sub-surface, placed inside, margins equal within one *)
+Lemma center_margins (child : Z -> Z -> cres) maxw maxh chS :
+  0 <= maxw < 65535 -> 0 <= maxh < 65535 -> child maxw maxh = COk chS ->
+  0 <= s_w chS <= maxw -> 0 <= s_h chS <= maxh ->
+  exists s offX offY, center_draw child maxw maxh = DOk s /\ s_w s = maxw /\ s_h s = maxh /\
+    s_kids s = [(offX, offY, 0, chS)] /\
+    0 <= offX /\ offX + s_w chS <= maxw /\ 0 <= (maxw - s_w chS - offX) - offX <= 1 /\
+    0 <= offY /\ offY + s_h chS <= maxh /\ 0 <= (maxh - s_h chS - offY) - offY <= 1.
+Proof.
+  intros Hw Hh Ec Hcw Hch.
+  pose proof (center_draw_spec child maxw maxh Hw Hh) as H. rewrite Ec in H.
+  destruct H as (s & E & E1 & E2 & _ & Ek).
+  exists s, (u16 (maxw - s_w chS) / 2), (u16 (maxh - s_h chS) / 2).
+  pose proof (center_offset maxw (s_w chS) Hcw ltac:(lia)) as Hx.
+  pose proof (center_offset maxh (s_h chS) Hch ltac:(lia)) as Hy.
+  cbv zeta in Hx, Hy. repeat split; try assumption; lia.
+Qed.
+
+(* Center over any tree of built-in widgets: the child always fits *)
+Lemma center_builtin_margins ch maxw maxh chS :
+  0 <= maxw < 65535 -> 0 <= maxh < 65535 -> draw ch maxw maxh = DOk chS ->
+  exists s offX offY, draw (WCenter ch) maxw maxh = DOk s /\ s_w s = maxw /\ s_h s = maxh /\
+    s_kids s = [(offX, offY, 0, chS)] /\
+    0 <= offX /\ offX + s_w chS <= maxw /\ 0 <= (maxw - s_w chS - offX) - offX <= 1 /\
+    0 <= offY /\ offY + s_h chS <= maxh /\ 0 <= (maxh - s_h chS - offY) - offY <= 1.
+Proof.
+  intros Hw Hh Ed.
+  pose proof (draw_contract_all ch maxw maxh ltac:(lia) ltac:(lia)) as Hc. unfold draw_contract in Hc.
+  rewrite Ed in Hc. destruct Hc as (_ & Hcw & Hch).
+  cbn [draw]. apply center_margins; try assumption. cbv beta. rewrite Ed. reflexivity.
+Qed.
+
+Lemma button_margins lines maxw maxh :
+  0 <= maxw < 65535 -> 0 <= maxh < 65535 ->
+  exists s offX offY chS, button_draw lines maxw maxh = DOk s /\ s_w s = maxw /\ s_h s = maxh /\
+    s_kids s = [(offX, offY, 0, chS)] /\ text_draw true lines maxw maxh = DOk chS /\
+    0 <= offX /\ offX + s_w chS <= maxw /\ 0 <= (maxw - s_w chS - offX) - offX <= 1 /\
+    0 <= offY /\ offY + s_h chS <= maxh /\ 0 <= (maxh - s_h chS - offY) - offY <= 1.
+Proof.
+  intros Hw Hh. unfold button_draw.
+  replace ((maxh =? 65535) || (maxw =? 65535)) with false by lia.
+  destruct (text_draw_spec true lines maxw maxh ltac:(lia) ltac:(lia)) as (chS & Et & Hc & Hcw & Hch & _).
+  pose proof (zlen_nonneg lines) as Hn.
+  destruct (center_margins (fun mw mh => cres_of (text_draw true lines mw mh)) maxw maxh chS Hw Hh)
+    as (s & offX & offY & E & E1 & E2 & Ek & M).
+  { cbv beta. rewrite Et. reflexivity. } { exact Hcw. } { lia. }
+  rewrite E. exists (fill (fun c : wcell => c) s), offX, offY, chS.
+  destruct (fill_shape (fun c : wcell => c) s) as (F1 & F2 & F3). rewrite F1, F2, F3.
+  repeat split; try assumption; tauto.
+Qed.
+
+(* ------------------------------------------------------------------ the model meets draw_ok *)
+
+Lemma wsparse_inc l : forall i prev, prev < i -> sp_increasing prev (wsparse i l) = true.
+Proof.
+  induction l as [|c t IH]; intros i prev H; cbn [wsparse sp_increasing]; [reflexivity|].
+  destruct (wcell_eqb c wblank); [apply IH; lia|].
+  cbn [sp_increasing]. rewrite IH by lia. lia.
+Qed.
+
+Lemma wsparse_bound l : forall i n, i + zlen l <= n ->
+  forallb (fun p : Z * wcell => fst p <? n) (wsparse i l) = true.
+Proof.
+  induction l as [|c t IH]; intros i n H; cbn [wsparse forallb]; [reflexivity|].
+  rewrite zlen_cons in H. pose proof (zlen_nonneg t).
+  destruct (wcell_eqb c wblank); [apply IH; lia|].
+  cbn [forallb fst]. rewrite IH by lia. lia.
+Qed.
+
+Lemma observe_shape (s : wsurface) : o_w (observe s) = s_w s /\ o_h (observe s) = s_h s /\
+  o_kids (observe s) = map (fun k : Z * Z * Z * wsurface => let '(c, r, z, ch) := k in (c, r, z, observe ch)) (s_kids s).
+Proof. destruct s; cbn; auto. Qed.
+
+Lemma observe_wf : forall s : wsurface, wf_tree s -> otree_wf (observe s) = true.
+Proof.
+  induction s as [w h buf kids IH] using surface_ind'. intros Hwf.
+  apply wf_tree_unfold in Hwf. destruct Hwf as ((Hw & Hh & Hl) & Hk). cbn [s_w s_h s_buf] in *.
+  cbn [observe otree_wf].
+  rewrite wsparse_inc by lia. rewrite wsparse_bound by lia.
+  replace ((0 <=? w) && (w <? 65536) && (0 <=? h) && (h <? 65536) && (zlen buf =? w * h)) with true by lia.
+  cbn [andb]. rewrite forallb_forall. intros k Hin. apply in_map_iff in Hin.
+  destruct Hin as ([[[c r] z] ch] & <- & Hin).
+  rewrite Forall_forall in IH, Hk. apply (IH _ Hin), (Hk _ Hin).
+Qed.
+
+Lemma centred_ok pw ph offX offY (chS : wsurface) :
+  0 <= offX -> offX + s_w chS <= pw -> 0 <= (pw - s_w chS - offX) - offX <= 1 ->
+  0 <= offY -> offY + s_h chS <= ph -> 0 <= (ph - s_h chS - offY) - offY <= 1 ->
+  centred pw ph (offX, offY, 0, observe chS) = true.
+Proof.
+  intros. unfold centred. destruct (observe_shape chS) as (-> & -> & _).
+  destruct ((s_w chS <=? pw) && (s_h chS <=? ph)); [lia | reflexivity].
+Qed.
+
+(* for every input the model's own observation passes the decidable contract check that the
+   differential run applies to the implementation's observations *)
+Lemma draw_run_ok ws maxw maxh : 0 <= maxw < 65536 -> 0 <= maxh < 65536 ->
+  draw_ok ((ws, maxw, maxh), draw_run (ws, maxw, maxh)) = true.
+Proof.
+  intros Hw Hh. unfold draw_ok, draw_run.
+  pose proof (draw_contract_all ws maxw maxh Hw Hh) as Hc. unfold draw_contract in Hc.
+  destruct (draw ws maxw maxh) as [|s] eqn:Ed.
+  - cbn. exact Hc.
+  - destruct Hc as (Hwf & Hsw & Hsh).
+    replace (0 =? 1) with false by reflexivity. cbn [andb].
+    destruct (observe_shape s) as (-> & -> & Ek). rewrite (observe_wf s Hwf).
+    replace ((0 =? 0) && (s_w s <=? maxw) && (s_h s <=? maxh) && true) with true by lia.
+    cbn [andb].
+    destruct ws as [r soft lines|ch|lines|chars|drawcur gap items]; cbn [is_centering]; try reflexivity.
+    + (* Center *)
+      cbn [draw] in Ed.
+      destruct ((maxh =? 65535) || (maxw =? 65535)) eqn:Eu; [unfold center_draw in Ed; rewrite Eu in Ed; discriminate|].
+      destruct (draw ch maxw maxh) as [|chS] eqn:Edc.
+      * pose proof (center_draw_spec (fun mw mh => cres_of (draw ch mw mh)) maxw maxh ltac:(lia) ltac:(lia)) as H.
+        cbv beta in H. rewrite Edc in H. cbn [cres_of] in H. congruence.
+      * destruct (center_builtin_margins ch maxw maxh chS ltac:(lia) ltac:(lia) Edc)
+          as (s2 & offX & offY & E2 & E3 & E4 & Ek2 & M).
+        cbn [draw] in E2. rewrite E2 in Ed. injection Ed as <-.
+        rewrite Ek, Ek2. cbn [map]. rewrite E3, E4. apply centred_ok; tauto.
+    + (* Button *)
+      cbn [draw] in Ed.
+      destruct ((maxh =? 65535) || (maxw =? 65535)) eqn:Eu; [unfold button_draw in Ed; rewrite Eu in Ed; discriminate|].
+      destruct (button_margins lines maxw maxh ltac:(lia) ltac:(lia))
+        as (s2 & offX & offY & chS & E2 & E3 & E4 & Ek2 & _ & M).
+      rewrite E2 in Ed. injection Ed as <-.
+      rewrite Ek, Ek2. cbn [map]. rewrite E3, E4. apply centred_ok; tauto.
+Qed.
